@@ -282,12 +282,18 @@ def directed_case(rng, kind, analysis=None, floating=True):
         g.lines.append((l, l))
     elif kind == 'Efdopamp':
         # `Ename Np Nm fdopamp Nip Nim Nocm Ad Ac`; the output common-mode node is held by a source
-        g.element('V', ['5', '0'])
+        # (outputs never on the node that V1 drives: V1 and the two VCVS halves would form a loop of voltage sources)
+        if '1' in perm[:2]:
+            perm = [perm[2], perm[3], perm[0], perm[1]]
+        g.element('R', ['5', '0'])
+        g.element('R', ['5', '2'])
         nm = g.name('E')
         l = '%s %s %s fdopamp %s %s 5 %s %s' % (nm, perm[0], perm[1], perm[2], perm[3], fs(sv_), fs(sv(rng)))
         g.lines.append((l, l))
     elif kind == 'Einamp':
         # `Ename Np Nm inamp Nip Nim Nrp Nrm Ad Ac Rf` with the external gain resistor between Nrp and Nrm
+        if '1' in perm[:2]:
+            perm = [perm[2], perm[3], perm[0], perm[1]]
         g.element('R', ['6', '7'])
         nm = g.name('E')
         l = '%s %s %s inamp %s %s 6 7 %s %s %s' % (nm, perm[0], perm[1], perm[2], perm[3], fs(sv_), fs(sv(rng)), fs(rv_))
